@@ -866,7 +866,8 @@ class Gen:
             op = rng.choice(["<", "<=", ">", ">="])
             return (self.join([xs, op, t] if rng.random() < 0.5 else [t, op, xs]), L_CMP)
         if r < 0.6:
-            t = self.at(self.threshold(d - 1), L_SUM)
+            # X = k: mostly a small k inside the usual supports (pmf at 0 and 1 of a Bernoulli, the ends of a UniformInt)
+            t = rng.choice(["0", "1", "1", "2", "3", "5", "10"]) if rng.random() < 0.75 else self.at(self.threshold(d - 1), L_SUM)
             return (self.join([xs, "=", t] if rng.random() < 0.85 else [t, "=", xs]), L_CMP)
         a, b = self.at(self.threshold(d - 1), L_SUM), self.at(self.threshold(d - 1), L_SUM)
         if r < 0.92:
